@@ -154,6 +154,12 @@ func main() {
 		errText := ""
 		anteCtx, write := ctx.CacheContext()
 		p := hx.Try(func() {
+			// baseapp runTx: validateBasicTxMsgs before the ante handler
+			for _, m := range tx.GetMsgs() {
+				if err = m.ValidateBasic(); err != nil {
+					return
+				}
+			}
 			_, err = e.Ante(anteCtx, tx, false)
 		})
 		switch {
